@@ -1,7 +1,7 @@
 import corpus
 
-PLAN_QUICK = [("cyc", ["ana"])]
-PLAN_THOROUGH = [("cyc", ["ana"]), ("core", ["ana"])]
+PLAN_QUICK = [("cycn", ["ana", "gana"]), ("cyc", ["ana"])]
+PLAN_THOROUGH = [("cycn", ["ana", "gana"]), ("cyc", ["ana"]), ("core", ["ana"])]
 
 
 def units(tier, seed):
